@@ -78,7 +78,9 @@ IntegralClosedForm(c) ==
 (* returns "yes" / "no" / "unknown"                                          *)
 WithinTol(dev, tn, td, width) ==
   LET L == IF Lt(width, One) THEN One ELSE width IN
-  IF IsZero(dev) THEN "yes"
+  IF IsNaR(dev) THEN "unknown"
+  ELSE IF IsZero(dev) THEN "yes"
+  ELSE IF tn = 0 THEN "no"
   ELSE IF td <= 1000 /\ dev[2] <= 100000 /\ Abs(dev[1]) <= 100000 /\ L[1] <= 1000 /\ L[2] <= 1000
        THEN (IF Le(dev, Mul(Q(2 * tn, td), L)) THEN "yes" ELSE "no")
   ELSE \* tiny tolerance (default 1e-9): n/d <= 2 (tn/td) L  <=>  n td Ld <= 2 tn Ln d ;
